@@ -143,6 +143,32 @@ func aolRules(p *Prog, r *Report, clause string, want func(tag string) bool) *ao
 		}
 	}
 
+	// ---- genesis import stores entries untransformed ---------------------------------------------
+	if want("genesis") && initGen != nil {
+		o := NewOrigin(p, initGen)
+		n := 0
+		for _, ac := range m.accessorCalls(initGen, o) {
+			if ac.acc.Op != "Set" {
+				if ac.acc.Op == "Delete" {
+					r.Fail(kp("ORIGIN", "x/aol.InitGenesis→"+FuncName(ac.acc.Fn)), "genesis import only stores entries", p.Pos(ac.cs.Instr.Pos()), "import deletes entries")
+				}
+				continue
+			}
+			n++
+			site := p.Pos(ac.cs.Instr.Pos())
+			fam := ac.acc.Family
+			okVal := ac.val != nil && ac.val.Op == "deref" && ac.val.Contains(func(x *Term) bool { return x.Op == "next" })
+			r.Check(okVal, kp("ORIGIN", "x/aol.InitGenesis#"+fam+"-stored-unchanged"),
+				"genesis import stores each exported entry exactly as it is in the genesis map (no field is recomputed or rewritten on the way in)", site,
+				"value ≡ *mapValue of the iteration", fmt.Sprintf("the %s written at import is %v — not the untouched genesis entry (counters/content recomputed at import diverge from what was exported)", fam, ac.val))
+			okKey := ac.key != nil && ac.key.Op == "outparam" && strings.Contains(ac.key.Name, "DecodeFromString")
+			r.Check(okKey, kp("ORIGIN", "x/aol.InitGenesis#"+fam+"-key-decoded"), "the key written at import is the one decoded from the genesis map key", site, "key ≡ DecodeFromString(mapKey)", fmt.Sprint(ac.key))
+			checkUnconditionalLoopEffect(p, r, kp("LOOP", "x/aol.InitGenesis#every-"+fam+"-imported"), initGen,
+				func(in ssa.Instruction) bool { return in == ssa.Instruction(ac.cs.Instr.(*ssa.Call)) }, "import stores every genesis entry, with no conditional skip")
+		}
+		r.Floor("aol-genesis-import-writes", n, 4)
+	}
+
 	// ---- handlers -----------------------------------------------------------------------------
 	var names []string
 	for n := range m.handlers {
